@@ -419,6 +419,64 @@ func checkC20(w *World) {
 						flow(st.Val, depth+1)
 					}
 				}
+				// a field of a row of a package-level table of structs (read in place, or through the range variable the row
+				// was copied into)
+				if fa, ok := x.X.(*ssa.FieldAddr); ok {
+					var rows []*ssa.IndexAddr
+					switch b := fa.X.(type) {
+					case *ssa.IndexAddr:
+						rows = append(rows, b)
+					case *ssa.Alloc:
+						for _, st := range storesInto(b) {
+							if ld, ok := st.Val.(*ssa.UnOp); ok {
+								if ia, ok := ld.X.(*ssa.IndexAddr); ok {
+									rows = append(rows, ia)
+								}
+							}
+						}
+					}
+					for _, ia := range rows {
+						var g *ssa.Global
+						switch b := ia.X.(type) {
+						case *ssa.Global:
+							g = b
+						case *ssa.UnOp:
+							g, _ = b.X.(*ssa.Global)
+						}
+						if g == nil {
+							continue
+						}
+						allInstrs(init, func(in ssa.Instruction) {
+							st, ok := in.(*ssa.Store)
+							if !ok {
+								return
+							}
+							sfa, ok := st.Addr.(*ssa.FieldAddr)
+							if !ok || sfa.Field != fa.Field {
+								return
+							}
+							sia, ok := sfa.X.(*ssa.IndexAddr)
+							if !ok {
+								return
+							}
+							base := sia.X
+							if al, isAl := base.(*ssa.Alloc); isAl {
+								for _, rr := range referrers(al) {
+									if sl, ok := rr.(*ssa.Slice); ok {
+										for _, r2 := range referrers(sl) {
+											if st2, ok := r2.(*ssa.Store); ok && st2.Addr == ssa.Value(g) {
+												base = g
+											}
+										}
+									}
+								}
+							}
+							if base == ssa.Value(g) {
+								flow(st.Val, depth+1)
+							}
+						})
+					}
+				}
 				// an element of a package-level table of type names (array or slice literal)
 				if ia, ok := x.X.(*ssa.IndexAddr); ok {
 					var g *ssa.Global
